@@ -41,7 +41,7 @@ def rdata_variants_built(ctx, b, depth=0, seen=None):
     return out
 
 
-PASS_THROUGH = ("Iterator::map", "Iterator::inspect", "Iterator::collect", "IntoIterator>::into_iter", "<impl [T]>::iter",
+PASS_THROUGH = ("std::iter::Iterator::next", "IntoIterator::into_iter", "Iterator::map", "Iterator::inspect", "Iterator::collect", "IntoIterator>::into_iter", "<impl [T]>::iter",
                 "Iterator>::next", "Iterator::cloned", "Iterator::copied", "Iterator::peekable", "Iterator::by_ref", "Iterator::take",
                 "Iterator::skip", "Deref>::deref", "Iterator::rev", "Iterator::fuse")
 
